@@ -288,7 +288,6 @@ def check(an, rep, tier):
     from .. import rules_proto as _RPZ
     _RPZ.check_none_vs_zero(prog, rep, modules={'func', 'func_full'})
     rep.floor('F-basis-init', 2, 'basis initialisation')
-    rep.floor('P-grid-size', 4, 'grid sizes of index ranges')
     from .. import rules_formula as _RF
     _RF.check_basis_values(prog, rep, 'func.func_basis', 'm', 'X')
     rep.floor('F-basis', 4, 'Chebyshev basis values')
